@@ -97,10 +97,18 @@ def _same(a, b):
 KEEP = {"println", "print", "delay", "digitalWrite"}
 
 
+LAST_READS: List[int] = []
+
+
 def firmware_trace(text: str, passes: int, analog, max_steps=400000, digital=(0,)):
     ev, glob, live = sketch.run(text, passes, sketch.Board(analog=analog, digital=digital), max_steps=max_steps)
     out = []
+    del LAST_READS[:]
     for nm, a in ev:
+        if nm in ("<setup>", "<loop>"):
+            LAST_READS.append(0)
+        elif nm == "digitalRead" and LAST_READS:
+            LAST_READS[-1] += 1
         if nm in KEEP:
             out.append((nm,) + tuple(a))
     return out, live
@@ -185,9 +193,13 @@ CORPUS: Dict[str, Tuple[str, int, str]] = {
     "global-after-branch-accumulation": ("result = 0\nstep = 4\nif step > 1:\n    result = result + step\nfinal = result * 3\nwhile True:\n    mon.write(final)\n", 1, "c01 c05 c06"),
     "global-after-tuple-swap": ("lo = 1\nhi = 2\nlo, hi = hi, lo\nspan = lo + 10\nwhile True:\n    mon.write(span)\n    mon.write(hi)\n", 1, "c01 c05 c06"),
     "first-assignment-opens-the-loop": ("while True:\n    frame = 1\n    frame = frame + pot.read()\n    mon.write(frame)\n", 2, "c01 c05 c06"),
-    "button-sample-first-statement-declares": ("while True:\n    pressed = btn.is_pressed()\n    if pressed:\n        mon.write(1)\n    else:\n        mon.write(0)\n", 4, "c05 c06"),
-    "button-sample-after-first-assignment": ("while True:\n    frame = 1\n    if btn.is_pressed():\n        frame = frame + 1\n    mon.write(frame)\n", 4, "c05 c06"),
-    "button-sample-same-in-one-pass": ("while True:\n    a = btn.is_pressed()\n    sleep(3)\n    b = btn.is_pressed()\n    if a == b:\n        mon.write(1)\n    else:\n        mon.write(0)\n", 3, "c05 c06"),
+    "button-sample-first-statement-declares": ("while True:\n    pressed = btn.is_pressed()\n    if pressed:\n        mon.write(1)\n    else:\n        mon.write(0)\n", 4, "c05 c06 c15"),
+    "button-sample-after-first-assignment": ("while True:\n    frame = 1\n    if btn.is_pressed():\n        frame = frame + 1\n    mon.write(frame)\n", 4, "c05 c06 c15"),
+    "button-sample-same-in-one-pass": ("while True:\n    a = btn.is_pressed()\n    sleep(3)\n    b = btn.is_pressed()\n    if a == b:\n        mon.write(1)\n    else:\n        mon.write(0)\n", 3, "c05 c06 c15"),
+    "button-in-nested-while-condition": ("while True:\n    n = 0\n    while btn.is_pressed() and n < 3:\n        n = n + 1\n        sleep(2)\n    mon.write(n)\n", 4, "c15 c06"),
+    "button-in-helper-called-from-the-loop": ("def armed():\n    return btn.is_pressed()\nwhile True:\n    if armed():\n        mon.write(1)\n    sleep(1)\n    if armed():\n        mon.write(2)\n    mon.write(0)\n", 4, "c15 c06"),
+    "button-in-boolean-expression": ("hold = 0\nwhile True:\n    if btn.is_pressed() and not hold > 1:\n        hold = hold + 1\n    elif not btn.is_pressed():\n        hold = 0\n    mon.write(hold)\n", 5, "c15 c06"),
+    "button-value-in-arithmetic": ("total = 0\nwhile True:\n    total = total + btn.is_pressed() * 2 + btn.is_pressed()\n    mon.write(total)\n", 4, "c15 c06"),
     "led-and-sleep": ("while True:\n    led.on()\n    sleep(100)\n    led.off()\n    sleep(50)\n    led.toggle()\n", 2, "c01 c05 c06"),
     # lists
     "list-index-and-append": ("xs = [4, 5, 6]\nwhile True:\n    v = pot.read()\n    xs.append(v)\n    mon.write(xs[0] + xs[2])\n", 2, "c01 c06 c09"),
@@ -205,7 +217,7 @@ CORPUS: Dict[str, Tuple[str, int, str]] = {
 def _task(item):
     label, body, passes = item
     try:
-        if not set(CORPUS[label][2].split()) & {"c01", "c02", "c05", "c09"}:
+        if not set(CORPUS[label][2].split()) & {"c01", "c02", "c05", "c09", "c15"}:
             st, text = sketch.transpile(HEAD + (BUTTON_HEAD if "btn." in body else "") + body)
             if st != "ok":
                 return label, ("refused", text, None)
@@ -239,6 +251,8 @@ def compare_full(body, passes, schedules=((0, 0, 0), (1000, 700, 3))):
         except sketch.SketchUnsupported as e:
             raise AnalysisError(f"the emitted sketch left the evaluable C subset: {e}")
         lives = live
+        if "btn." in body and any(n_ != 1 for n_ in LAST_READS):
+            return "differ", f"pin reads per phase (setup, then each loop() pass): {list(LAST_READS)} - the button pin must be sampled exactly once in setup() and once per pass, every is_pressed() of a pass answers from that sample", live
         if len(got) != len(want) or not all(_same(g, w) for g, w in zip(got, want)):
             i_ = next((i for i, (g, w) in enumerate(zip(got, want)) if not _same(g, w)), min(len(got), len(want)))
             return "differ", f"sensor schedule {list(analog)}: event #{i_ + 1} is {got[i_] if i_ < len(got) else 'missing'} on the device and {want[i_] if i_ < len(want) else 'missing'} in Python ({len(got)} device events, {len(want)} Python events)", live
@@ -266,9 +280,9 @@ def results():
     return _RESULTS
 
 
-def rule_traces(cx, rid, tag, anchor, what):
+def rule_traces(cx, rid, tag, anchor, what, floor=8):
     """trace equality for the corpus scripts carrying `tag`"""
-    r = cx.rule(rid, what, floor=8)
+    r = cx.rule(rid, what, floor=floor)
     n_eq = 0
     for label, (body, passes, tags) in CORPUS.items():
         if tag not in tags.split():
